@@ -134,3 +134,21 @@ def find(pattern, root: ast.AST, b: Optional[Bind] = None):
 
 def has(pattern, root: ast.AST, b: Optional[Bind] = None) -> bool:
     return find(pattern, root, b) is not None
+
+
+def find_seq(pattern_src: str, root: ast.AST, b: Optional[Bind] = None):
+    """Match a *sequence* of statements (as a subsequence) inside any statement block
+    under root.  Returns bindings or None."""
+    ps = ast.parse(pattern_src).body
+    for n in ast.walk(root):
+        for fld in ("body", "orelse", "finalbody"):
+            blk = getattr(n, fld, None)
+            if isinstance(blk, list) and blk and isinstance(blk[0], ast.stmt):
+                r = _match_subseq(ps, blk, dict(b or {}))
+                if r is not None:
+                    return r
+    return None
+
+
+def has_seq(pattern_src: str, root: ast.AST, b: Optional[Bind] = None) -> bool:
+    return find_seq(pattern_src, root, b) is not None
